@@ -475,13 +475,13 @@ func (e *Engine) binop(fr *Frame, st *State, op token.Token, av, bv Val, at type
 		case token.ADD:
 			return mk("str.++", sStr)
 		case token.LSS:
-			return mk("str.<", sBool)
+			return e.name(strLt(a, b), "b")
 		case token.LEQ:
-			return mk("str.<=", sBool)
+			return e.name(strLe(a, b), "b")
 		case token.GTR:
-			return e.name(T{app("str.<", b, a), sBool}, "b")
+			return e.name(strLt(b, a), "b")
 		case token.GEQ:
-			return e.name(T{app("str.<=", b, a), sBool}, "b")
+			return e.name(strLe(b, a), "b")
 		}
 	case sBool:
 		switch op {
@@ -754,3 +754,9 @@ func (e *Engine) edgeCond(fr *Frame, p, b *ssa.BasicBlock) T {
 	}
 	return pc
 }
+
+// String order is an uninterpreted strict total order (str_lt, axiomatised in the prelude):
+// the solvers' native lexicographic order is complete but far too expensive once sortedness
+// facts are quantified (measured: 80 000 sequence axioms on one Pending obligation).
+func strLt(a, b T) T { return T{app("str_lt", a, b), sBool} }
+func strLe(a, b T) T { return T{fmt.Sprintf("(or (= %s %s) (str_lt %s %s))", a.S, b.S, a.S, b.S), sBool} }
